@@ -286,9 +286,9 @@ def run_ambig_index(ctx: Ctx) -> RuleResult:
             res.finding(ib, c, '%s is not given the rule\'s own expansion' % norm(c.func), construct='index-arg:' + norm(c.func))
     # placeholders only when maybe_placeholders
     ok = any('options.empty_indices if self.maybe_placeholders else None' in norm(c) for c in calls)
-    res.ob(site, 'None placeholders are inserted only under maybe_placeholders', ok)
+    res.ob(site, 'None placeholders are inserted only under maybe_placeholders', ok, props=['C03'])
     if not ok:
-        res.finding(ib, ib.node, 'empty_indices are passed to the child filter regardless of maybe_placeholders', construct='placeholders')
+        res.finding(ib, ib.node, 'empty_indices are passed to the child filter regardless of maybe_placeholders', construct='placeholders', props=['C03'])
     # ChildFilter semantics: per kept index: add_none Nones before, expand or append; trailing Nones
     for cname in ('ChildFilter', 'ChildFilterLALR'):
         m = repo.func('lark.parse_tree_builder:%s.__call__' % cname)
@@ -309,19 +309,19 @@ def run_ambig_index(ctx: Ctx) -> RuleResult:
             after = m.node.body[m.node.body.index(lp) + 1:]
             ok = ok and any('[None] * self.append_none' in norm(st) for st in after) \
                 and isinstance(after[-1], ast.Return) and 'self.node_builder(' in norm(after[-1])
-        res.ob('%s %s' % (m.loc(), m.qual), 'placeholders precede the kept child they belong to; trailing ones are appended', ok)
+        res.ob('%s %s' % (m.loc(), m.qual), 'placeholders precede the kept child they belong to; trailing ones are appended', ok, props=['C03'])
         if not ok:
-            res.finding(m, m.node, '%s no longer inserts the None placeholders before the kept child / at the end' % cname, construct=cname + ':nones')
+            res.finding(m, m.node, '%s no longer inserts the None placeholders before the kept child / at the end' % cname, construct=cname + ':nones', props=['C03'])
     mcf = repo.func('lark.parse_tree_builder:maybe_create_child_filter')
     body = ' '.join(norm(s) for s in mcf.node.body)
     ok = 'nones_to_add += empty_indices[i]' in body and 'nones_to_add = 0' in body and 'nones_to_add += empty_indices[len(expansion)]' in body
-    res.ob('%s %s' % (mcf.loc(), mcf.qual), 'placeholders accumulate over dropped symbols and attach to the next kept one', ok)
+    res.ob('%s %s' % (mcf.loc(), mcf.qual), 'placeholders accumulate over dropped symbols and attach to the next kept one', ok, props=['C03'])
     if not ok:
-        res.finding(mcf, mcf.node, 'the accumulation of None placeholders over filtered symbols changed', construct='nones-accumulate')
+        res.finding(mcf, mcf.node, 'the accumulation of None placeholders over filtered symbols changed', construct='nones-accumulate', props=['C03'])
     esc = repo.func('lark.parse_tree_builder:ExpandSingleChild.__call__')
     body = ' '.join(norm(s) for s in esc.node.body)
     ok = 'if len(children) == 1' in body and 'return children[0]' in body
-    res.ob('%s %s' % (esc.loc(), esc.qual), '?rule: replaced by its child iff it has exactly one', ok)
+    res.ob('%s %s' % (esc.loc(), esc.qual), '?rule: replaced by its child iff it has exactly one', ok, props=['C03'])
     if not ok:
-        res.finding(esc, esc.node, 'ExpandSingleChild no longer inlines exactly the single-child case', construct='expand1')
+        res.finding(esc, esc.node, 'ExpandSingleChild no longer inlines exactly the single-child case', construct='expand1', props=['C03'])
     return res
